@@ -9,7 +9,7 @@ A field value is the byte string it marshals to; that `unmarshal ∘ marshal` is
 documented normal form is C06 (`FitProps/C06.lean`), what validation retains is C10.
 
 PROPERTY THEOREMS: C01_wire_records, C01_wire_sequence, C01_wire_chain, C01_ts_nonmonotone_roundtrip,
-C01_ts_wild_roundtrip
+C01_ts_wild_roundtrip, C01_fix_conservative
 
 History: on the pinned tree the compressed-timestamp part held for valid, unique, non-decreasing timestamps
 only (finding KF-C01-ts: t, t+20, t+5 came back as t, t+20, t+37). Repaired in /repo by the `fix:` commit
@@ -126,5 +126,41 @@ theorem C01_ts_wild_roundtrip :
     (seqsOf (decodeStream (fun _ => false) true 3 true (encodeChain exOpts [(⟨14, 32, 2158⟩, wildMsgs)])).1).map
       (fun f => (dataOf f.items).map (·.ts)) := by
   decide +kernel
+
+/-! ### what the repair leaves unchanged -/
+
+theorem fix_conservative_aux (o : Opts) (ms : List WMsg) :
+    ∀ (e : EncState) (lo : Nat), TsMono o.arch lo ms →
+      (o.compress = true → e.tsLast = lo ∧ e.tsRef ≤ lo ∧ lo - e.tsRef ≤ 31) →
+      encodeMsgs o e ms = encodeMsgsOld o (e.lru, e.tsRef) ms := by
+  induction ms with
+  | nil => intro _ _ _ _; rfl
+  | cons m ms ih =>
+    intro e lo hm hinv
+    obtain ⟨hok, hlo, hrest⟩ := hm
+    obtain ⟨h1, h2, h3, h4⟩ := step_conservative o e lo m hok hlo hinv
+    have := ih (encodeMsg o e m).1 _ hrest h4
+    simp only [encodeMsgs, encodeMsgsOld]
+    rw [h1, this, h2, h3]
+
+
+/-- BYTE-IDENTICAL WHERE THE OLD ENCODER WAS RIGHT. For message lists whose timestamps are valid date-times, at
+most one per message, and never go backwards — the inputs on which the pinned tree already met the property —
+the repaired encoder writes exactly the bytes the pinned tree's encoder wrote (same compression decisions,
+same definitions, same local message numbers). -/
+theorem C01_fix_conservative (o : Opts) (ms : List WMsg) (h : TsMono o.arch 0 ms) :
+    encodeMsgs o (freshEnc o) ms = encodeMsgsOld o (Lru.empty o.lruCap, 0) ms :=
+  fix_conservative_aux o ms (freshEnc o) 0 h (fun _ => ⟨rfl, Nat.le_refl _, by simp [freshEnc]⟩)
+
+/-- non-vacuity: the example chain of above has valid, unique, non-decreasing timestamps -/
+example : TsMono exOpts.arch 0 exMsgs := by
+  refine TsMono.cons_none (by unfold noTs; decide) ?_
+  refine TsMono.cons_ts [] [⟨3, 0x02, 3, [70]⟩] (exTs 1000000000) 1000000000 rfl (by unfold noTs; decide) (by unfold noTs; decide) rfl rfl (Or.inl rfl) (by decide) (by decide) (by decide) (by decide) ?_
+  refine TsMono.cons_ts [⟨3, 0x02, 3, [71]⟩] [] (exTs 1000000005) 1000000005 rfl (by unfold noTs; decide) (by unfold noTs; decide) rfl rfl (Or.inl rfl) (by decide) (by decide) (by decide) (by decide) ?_
+  refine TsMono.cons_ts [] [⟨0, 0x00, 3, [0]⟩] (exTs 1000000005) 1000000005 rfl (by unfold noTs; decide) (by unfold noTs; decide) rfl rfl (Or.inl rfl) (by decide) (by decide) (by decide) (by decide) ?_
+  refine TsMono.cons_ts [] [⟨3, 0x02, 3, [72]⟩] (exTs 1000000031) 1000000031 rfl (by unfold noTs; decide) (by unfold noTs; decide) rfl rfl (Or.inl rfl) (by decide) (by decide) (by decide) (by decide) ?_
+  refine TsMono.cons_ts [] [⟨3, 0x02, 3, [73]⟩] (exTs 1000000040) 1000000040 rfl (by unfold noTs; decide) (by unfold noTs; decide) rfl rfl (Or.inl rfl) (by decide) (by decide) (by decide) (by decide) ?_
+  trivial
+
 
 end Fit.C01
